@@ -83,7 +83,7 @@ func c20xCopySec(s c20SecRaw) c20SecRaw {
 		o.apps = c20xCopy(s.apps).([]interface{})
 	}
 	for _, n := range s.nodes {
-		m := c20NodeRaw{sel: n.sel}
+		m := c20NodeRaw{sel: n.sel, name: n.name, named: n.named}
 		if n.strat != nil {
 			m.strat = c20xCopy(n.strat).(c20J)
 		}
@@ -106,7 +106,7 @@ func c20xRender(sec int, raw c20SecRaw) string {
 		top["clusterStrategy"] = raw.cluster
 	}
 	var nodes []interface{}
-	for i, n := range raw.nodes {
+	for _, n := range raw.nodes {
 		e := c20J{}
 		if sec == 4 {
 			if n.apps != nil {
@@ -117,7 +117,9 @@ func c20xRender(sec int, raw c20SecRaw) string {
 				e[k] = v
 			}
 		}
-		e["name"] = fmt.Sprintf("e%d", i)
+		if n.named {
+			e["name"] = n.name
+		}
 		if n.sel.json != nil {
 			e["nodeSelector"] = n.sel.json
 		}
@@ -180,7 +182,30 @@ func c20xMutate(r *vRand, sec int, raw *c20SecRaw) string {
 	if raw.state != 2 {
 		return ""
 	}
-	switch r.Intn(9) {
+	switch r.Intn(12) {
+	case 9, 10: // the same entries in another document order (names travel with their entries)
+		if len(raw.nodes) < 2 {
+			return ""
+		}
+		i := r.Intn(len(raw.nodes) - 1)
+		j := i + 1 + r.Intn(len(raw.nodes)-1-i)
+		raw.nodes = append([]c20NodeRaw{}, raw.nodes...)
+		raw.nodes[i], raw.nodes[j] = raw.nodes[j], raw.nodes[i]
+		return "swap-entries"
+	case 11: // rename one entry (or all of them, descending): names are labels, selection must not move
+		if len(raw.nodes) == 0 {
+			return ""
+		}
+		raw.nodes = append([]c20NodeRaw{}, raw.nodes...)
+		if r.Bool() {
+			for i := range raw.nodes {
+				raw.nodes[i].name, raw.nodes[i].named = string(rune('a'+len(raw.nodes)-1-i)), true
+			}
+			return "rename-descending"
+		}
+		i := r.Intn(len(raw.nodes))
+		raw.nodes[i].name, raw.nodes[i].named = []string{"", "a", "0", "zz"}[r.Intn(4)], true
+		return "rename-entry"
 	case 0: // drop the whole cluster layer
 		if sec == 4 {
 			if len(raw.apps) == 0 {
@@ -259,11 +284,34 @@ func c20xExpect(s int, g c20Good, labels map[int]int, defLayer c20Layer) c20Laye
 	if !g.absent {
 		for i, ne := range g.sec.nodes {
 			if c20SelMatches(ne.sel, labels) {
-				first = i
+				first = i // the first matching entry in DOCUMENT order, whatever the entries are named
 				break
 			}
 		}
 	}
+	return c20xExpectEntry(s, g, first, defLayer)
+}
+
+// c20xLaterMatch: does the observation equal what a LATER matching entry (not the first in document order) would give?
+func c20xLaterMatch(s int, g c20Good, labels map[int]int, defLayer c20Layer, obs c20Layer) int {
+	if g.absent {
+		return -1
+	}
+	seen := false
+	for i, ne := range g.sec.nodes {
+		if !c20SelMatches(ne.sel, labels) {
+			continue
+		}
+		if seen && c20LayerEq(obs, c20xExpectEntry(s, g, i, defLayer)) {
+			return i
+		}
+		seen = true
+	}
+	return -1
+}
+
+// c20xExpectEntry: entry `first` (-1: none) over cluster over default.
+func c20xExpectEntry(s int, g c20Good, first int, defLayer c20Layer) c20Layer {
 	if s == 4 {
 		var apps []interface{}
 		if !g.absent {
@@ -301,6 +349,42 @@ type c20xWorld struct {
 	apiError            string
 	failArmed, failUsed bool   // injected failure of the next NodeSLO write (Create/Update/Delete)
 	afterCMRead         func() // one-shot hook: runs right after the next read of the slo-controller ConfigMap through the client
+	wire                *c20wWire // non-nil: the controller runs inside a real manager (verif_c20_wiring_test.go); events go through its watches
+}
+
+// evCM hands a ConfigMap event (1 Create, 2 Update, 3 Delete) to the controller: directly to the real handler, or - wired -
+// through the manager's ConfigMap watch as the informer would (objects as the API returns them).
+func (c *c20xCase) evCM(kind int, old, obj *corev1.ConfigMap) {
+	w := c.w
+	if w.wire != nil {
+		w.wire.evCM(c, kind, obj)
+		return
+	}
+	switch kind {
+	case 1:
+		w.handler.Create(c.ctx, event.TypedCreateEvent[client.Object]{Object: obj.DeepCopy()}, w.q)
+	case 2:
+		w.handler.Update(c.ctx, event.TypedUpdateEvent[client.Object]{ObjectOld: old.DeepCopy(), ObjectNew: obj.DeepCopy()}, w.q)
+	default:
+		w.handler.Delete(c.ctx, event.TypedDeleteEvent[client.Object]{Object: obj.DeepCopy()}, w.q)
+	}
+}
+
+// evNode: the same for a Node event.
+func (c *c20xCase) evNode(kind int, old, obj *corev1.Node) {
+	w := c.w
+	if w.wire != nil {
+		w.wire.evNode(c, kind, obj)
+		return
+	}
+	switch kind {
+	case 1:
+		w.nodeH.Create(c.ctx, event.TypedCreateEvent[client.Object]{Object: obj}, w.q)
+	case 2:
+		w.nodeH.Update(c.ctx, event.TypedUpdateEvent[client.Object]{ObjectOld: old, ObjectNew: obj}, w.q)
+	default:
+		w.nodeH.Delete(c.ctx, event.TypedDeleteEvent[client.Object]{Object: obj}, w.q)
+	}
 }
 
 // c20xInject fails the next write of a NodeSLO object when armed.
@@ -493,9 +577,13 @@ type c20xCase struct {
 	stepNo   int
 	sawUnset bool
 	hold     bool // events only enqueue (Model/C20HistQ.lean); requests are reconciled one by one by reconcileOne
+	goodHist [][]c20Good // the oracle's memory before each ConfigMap write of the case (to NAME a stale cache; never to excuse one)
+	wired    bool // the controller runs in a real manager: reconciles happen on its worker, observations only after settle()
 }
 
-func (e *c20xEnv) newCase(h *vHarness) *c20xCase {
+func (e *c20xEnv) newCase(h *vHarness) *c20xCase { return e.newCaseW(h, false) }
+
+func (e *c20xEnv) newCaseW(h *vHarness, wired bool) *c20xCase {
 	for s, fl := range e.defFlats {
 		for _, x := range fl {
 			h.Op("def %d %s", s, c20Line(x))
@@ -505,7 +593,12 @@ func (e *c20xEnv) newCase(h *vHarness) *c20xCase {
 		good: make([]c20Good, 5), goodAlt: make([]c20Good, 5), textIDs: map[string]int{}, nodes: map[int]map[int]int{}, prevExp: map[int][]c20Layer{}, prevObs: map[int][]c20Layer{}}
 	c.w = &c20xWorld{scheme: e.scheme}
 	c.w.cl = c.w.newClient()
-	c.w.start()
+	if wired {
+		c.wired = true
+		c.w.startWired(c)
+	} else {
+		c.w.start()
+	}
 	for s := range c.good {
 		c.good[s], c.goodAlt[s] = c20Good{absent: true}, c20Good{absent: true}
 	}
@@ -513,6 +606,10 @@ func (e *c20xEnv) newCase(h *vHarness) *c20xCase {
 }
 
 func (c *c20xCase) fail(fp, format string, a ...interface{}) {
+	if c.wired {
+		fp = strings.Replace(fp, "C20:hist:", "C20:wiring:", 1)
+		format += " [events delivered through the watches registered by the real SetupWithManager on a real controller-runtime manager]"
+	}
 	if !c.failed[fp] {
 		c.failed[fp] = true
 		c.h.Fail(fp, format, a...)
@@ -520,6 +617,9 @@ func (c *c20xCase) fail(fp, format string, a ...interface{}) {
 }
 
 func (c *c20xCase) finish() {
+	if c.w.wire != nil {
+		c.w.wire.stop(c)
+	}
 	if c.w.apiError != "" {
 		c.h.Tag("hapi-error")
 		c.h.Extra("last_api_error", c.w.apiError)
@@ -595,6 +695,7 @@ func (c *c20xCase) stepCMWrite(variation string) {
 	}
 	w.cmObj = c20xNewCMObj(data)
 	// the event's sections as ops; the oracle's memory follows the texts
+	c.goodHist = append(c.goodHist, append([]c20Good{}, c.good...))
 	h.Op("hev %d %s", kind, vIntsI(ident))
 	for s := 0; s < 5; s++ {
 		// 'parsable' by the strict reading of the text (exactly one JSON value), not by what the code under test accepted
@@ -610,11 +711,11 @@ func (c *c20xCase) stepCMWrite(variation string) {
 	h.Op("end")
 	if kind == 1 {
 		h.Tag("hstep:cm-create")
-		w.handler.Create(c.ctx, event.TypedCreateEvent[client.Object]{Object: w.cmObj.DeepCopy()}, w.q)
+		c.evCM(1, nil, w.cmObj)
 	} else {
 		h.Tag("hstep:cm-update")
 		h.Tag("hcmupd:" + variation)
-		w.handler.Update(c.ctx, event.TypedUpdateEvent[client.Object]{ObjectOld: old.DeepCopy(), ObjectNew: w.cmObj.DeepCopy()}, w.q)
+		c.evCM(2, old, w.cmObj)
 	}
 	c.observe("cm")
 }
@@ -631,7 +732,7 @@ func (c *c20xCase) stepCMDelete() {
 		c.cur[s] = c20SecRaw{state: 0}
 	}
 	c.extra = map[string]string{}
-	w.handler.Delete(c.ctx, event.TypedDeleteEvent[client.Object]{Object: old.DeepCopy()}, w.q)
+	c.evCM(3, nil, old)
 	c.observe("cmdel")
 }
 
@@ -644,7 +745,9 @@ func (c *c20xCase) stepForeign(otherName, create bool) {
 	if otherName {
 		f.Name, f.Namespace = "other-config", sloconfig.ConfigNameSpace
 	}
-	if create {
+	if w.wire != nil {
+		w.wire.evForeign(f, create)
+	} else if create {
 		w.handler.Create(c.ctx, event.TypedCreateEvent[client.Object]{Object: f}, w.q)
 	} else {
 		g := f.DeepCopy()
@@ -661,7 +764,7 @@ func (c *c20xCase) stepNodeAdd(nm int, labels map[int]int) {
 	h.Tag("hstep:node-add")
 	obj := c20xNodeObj(nm, labels, false)
 	w.must(w.cl.Create(c.ctx, obj.DeepCopy()), "create node")
-	w.nodeH.Create(c.ctx, event.TypedCreateEvent[client.Object]{Object: obj}, w.q)
+	c.evNode(1, nil, obj)
 	c.observe("node")
 }
 
@@ -680,7 +783,7 @@ func (c *c20xCase) stepNodeUpdate(nm int, labels map[int]int, touch bool) {
 	newObj := c20xNodeObj(nm, labels, touch)
 	got.Labels, got.Annotations = newObj.Labels, newObj.Annotations
 	w.must(w.cl.Update(c.ctx, got), "update node")
-	w.nodeH.Update(c.ctx, event.TypedUpdateEvent[client.Object]{ObjectOld: c20xNodeObj(nm, oldLabels, false), ObjectNew: newObj}, w.q)
+	c.evNode(2, c20xNodeObj(nm, oldLabels, false), newObj)
 	c.observe(kind)
 }
 
@@ -693,7 +796,7 @@ func (c *c20xCase) stepNodeDelete(nm int) {
 	h.Op("hnode 2 %d 0", nm)
 	h.Tag("hstep:node-delete")
 	w.must(w.cl.Delete(c.ctx, c20xNodeObj(nm, nil, false)), "delete node")
-	w.nodeH.Delete(c.ctx, event.TypedDeleteEvent[client.Object]{Object: c20xNodeObj(nm, oldLabels, false)}, w.q)
+	c.evNode(3, nil, c20xNodeObj(nm, oldLabels, false))
 	c.observe("nodedel")
 }
 
@@ -761,6 +864,9 @@ func (c *c20xCase) drain() {
 // evaluate the layering statement from scratch on the current texts + labels for every field of every node.
 func (c *c20xCase) observe(kind string) {
 	h, w := c.h, c.w
+	if c.wired && c.hold {
+		return // the manager's worker is reconciling concurrently: nothing canonical to observe before settle()
+	}
 	if !c.hold {
 		c.drain()
 	}
@@ -853,11 +959,40 @@ func (c *c20xCase) observe(kind string) {
 				}
 			}
 			alt := c20xExpect(s, c.goodAlt[s], labels, c.env.defLayers[s])
+			if !c.good[s].absent {
+				var matching []int
+				for i, ne := range c.good[s].sec.nodes {
+					if c20SelMatches(ne.sel, labels) {
+						matching = append(matching, i)
+					}
+				}
+				if len(matching) > 1 {
+					h.Tag("hprobe:overlapping-selectors")
+					if k := c20NameSortedFirst(c.good[s].sec.nodes, matching); k >= 0 && k != matching[0] {
+						h.Tag("hprobe:overlap-first-in-document-is-not-smallest-name")
+					}
+				}
+			}
 			obsS, obsV := c20LayerOf(sto[s]), c20LayerOf(view[s])
 			if c20LayerEq(obsS, exp) || c20LayerEq(obsS, alt) {
 				continue
 			}
-			if c20LayerEq(obsV, exp) || c20LayerEq(obsV, alt) {
+			staleOf := -1 // is the cache's view what an EARLIER ConfigMap content of this case demands?
+			viewOK := c20LayerEq(obsV, exp) || c20LayerEq(obsV, alt)
+			for k := len(c.goodHist) - 1; k >= 0 && staleOf < 0 && c.raceOld == nil && !viewOK; k-- {
+				if c20LayerEq(obsV, c20xExpect(s, c.goodHist[k][s], labels, c.env.defLayers[s])) {
+					staleOf = k
+				}
+			}
+			if staleOf >= 0 {
+				d := c20Diffs(obsV, exp)[0]
+				c.fail("C20:hist:cache-stale:"+c20SecNames[s], "the cached config does not follow the current ConfigMap for n%d (it is what the ConfigMap said %d write(s) ago): section %s field %s: %s (after step %d %s, labels %v)",
+					nm, len(c.goodHist)-staleOf, c20SecNames[s], c20PathNames(d.p), d.what, stp, kind, labels)
+			} else if k := c20xLaterMatch(s, c.good[s], labels, c.env.defLayers[s], obsV); k >= 0 && !viewOK {
+				d := c20Diffs(obsV, exp)[0]
+				c.fail("C20:hist:first-match:"+c20SecNames[s], "n%d is served by node entry #%d (name %q) although an EARLIER entry of the section matches its labels: section %s field %s: %s (after step %d %s, labels %v)",
+					nm, k, c.good[s].sec.nodes[k].name, c20SecNames[s], c20PathNames(d.p), d.what, stp, kind, labels)
+			} else if c20LayerEq(obsV, exp) || c20LayerEq(obsV, alt) {
 				d := c20Diffs(obsS, exp)[0]
 				c.fail("C20:hist:nodeslo-stale:"+c20SecNames[s], "the NodeSLO of n%d does not carry the recomputed spec: section %s field %s: %s (after step %d %s, labels %v)",
 					nm, c20SecNames[s], c20PathNames(d.p), d.what, stp, kind, labels)
@@ -1121,6 +1256,120 @@ func c20xRaceEdit(c *c20xCase, r *vRand) {
 	}
 }
 
+// c20xRandomCMStep: one random write of the slo-controller ConfigMap (create if it does not exist, else one of the update
+// variations) + its event.
+func c20xRandomCMStep(c *c20xCase, r *vRand) {
+	w := c.w
+	if w.cmObj == nil { // ---- create
+		for s := 0; s < 5; s++ {
+			c.cur[s] = c20SecRaw{state: 0}
+			if r.Bool() {
+				c.cur[s] = c20GenSection(r, s)
+			}
+		}
+		c.extra = map[string]string{}
+		if r.Chance(1, 5) {
+			c.extra[c20xExtraKeys[0]] = `{"enable":true}`
+		}
+		c.dataNil = r.Bool()
+		c.stepCMWrite("create")
+		return
+	}
+	variation := ""
+	present, absent := []int{}, []int{}
+	for s := 0; s < 5; s++ {
+		if c.cur[s].state != 0 {
+			present = append(present, s)
+		} else {
+			absent = append(absent, s)
+		}
+	}
+	switch x := r.Intn(20); {
+	case x < 2:
+		variation = "nothing"
+	case x < 4:
+		variation = "other-key"
+		k := c20xExtraKeys[r.Intn(2)]
+		if _, ok := c.extra[k]; ok && r.Bool() {
+			delete(c.extra, k)
+		} else {
+			c.extra[k] = fmt.Sprintf(`{"v":%d}`, r.Intn(3))
+		}
+	case x < 7 && len(present) > 0:
+		variation = "remove-key"
+		for i, s := range r.Perm(len(present)) {
+			if i == 0 || r.Chance(1, 4) {
+				c.cur[present[s]] = c20SecRaw{state: 0}
+			}
+		}
+	case x < 9 && len(absent) > 0:
+		variation = "add-key"
+		s := absent[r.Intn(len(absent))]
+		c.cur[s] = c20GenSection(r, s)
+		if c.cur[s].state == 0 {
+			c.cur[s] = c20SecRaw{state: 2, text: "{}"}
+		}
+	case x < 15 && len(present) > 0:
+		s := present[r.Intn(len(present))]
+		cp := c20xCopySec(c.cur[s])
+		if tag := c20xMutate(r, s, &cp); tag != "" {
+			cp.text = c20xRender(s, cp)
+			c.cur[s] = cp
+			variation = "edit:" + tag
+		} else {
+			c.cur[s] = c20GenSection(r, s)
+			variation = "regen"
+		}
+	case x < 16 && len(present) > 0:
+		variation = "break"
+		s := present[r.Intn(len(present))]
+		c.cur[s] = c20SecRaw{state: 1, text: []string{"invalid_content", "{", "[]", ""}[r.Intn(4)]}
+		if r.Bool() { // not one JSON value, but a PREFIX of the text is a complete (and different) section
+			variation = "break-valid-prefix"
+			for try := 0; try < 8; try++ {
+				if g := c20GenSection(r, s); g.state == 2 {
+					c.cur[s] = c20SecRaw{state: 1, text: c20PrefixValidMalformed(r, g.text)}
+					break
+				}
+			}
+		}
+	default:
+		variation = "regen"
+		for i, s := range r.Perm(5) {
+			if i == 0 || r.Chance(1, 5) {
+				c.cur[s] = c20GenSection(r, s)
+			}
+		}
+	}
+	if r.Chance(1, 10) {
+		c.dataNil = !c.dataNil
+	}
+	c.stepCMWrite(variation)
+}
+
+// c20xRandomRelabel: a node update: new random labels / one label flipped (kind "relabel") or an annotation-only touch.
+func c20xRandomRelabel(c *c20xCase, r *vRand, kind string, names []int) {
+	nm := names[r.Intn(len(names))]
+	oldLabels := c.nodes[nm]
+	labels := oldLabels
+	if kind == "relabel" {
+		labels = c20xGenLabels(r)
+		if r.Chance(1, 3) { // flip exactly one label: moves between selector layers
+			labels = map[int]int{}
+			for k, v := range oldLabels {
+				labels[k] = v
+			}
+			k := r.Range(1, 3)
+			if _, ok := labels[k]; ok && r.Bool() {
+				delete(labels, k)
+			} else {
+				labels[k] = 1 + (labels[k] % 2)
+			}
+		}
+	}
+	c.stepNodeUpdate(nm, labels, kind == "touch")
+}
+
 func c20xRandomHistory(c *c20xCase, r *vRand, race bool) {
 	h, w := c.h, c.w
 	nSteps := r.Range(3, 8)
@@ -1212,91 +1461,7 @@ func c20xRandomHistory(c *c20xCase, r *vRand, race bool) {
 			c20xRaceEdit(c, r)
 			c.stepRace(r, t1)
 		case "cm":
-			if w.cmObj == nil { // ---- create
-				for s := 0; s < 5; s++ {
-					c.cur[s] = c20SecRaw{state: 0}
-					if r.Bool() {
-						c.cur[s] = c20GenSection(r, s)
-					}
-				}
-				c.extra = map[string]string{}
-				if r.Chance(1, 5) {
-					c.extra[c20xExtraKeys[0]] = `{"enable":true}`
-				}
-				c.dataNil = r.Bool()
-				c.stepCMWrite("create")
-				continue
-			}
-			variation := ""
-			present, absent := []int{}, []int{}
-			for s := 0; s < 5; s++ {
-				if c.cur[s].state != 0 {
-					present = append(present, s)
-				} else {
-					absent = append(absent, s)
-				}
-			}
-			switch x := r.Intn(20); {
-			case x < 2:
-				variation = "nothing"
-			case x < 4:
-				variation = "other-key"
-				k := c20xExtraKeys[r.Intn(2)]
-				if _, ok := c.extra[k]; ok && r.Bool() {
-					delete(c.extra, k)
-				} else {
-					c.extra[k] = fmt.Sprintf(`{"v":%d}`, r.Intn(3))
-				}
-			case x < 7 && len(present) > 0:
-				variation = "remove-key"
-				for i, s := range r.Perm(len(present)) {
-					if i == 0 || r.Chance(1, 4) {
-						c.cur[present[s]] = c20SecRaw{state: 0}
-					}
-				}
-			case x < 9 && len(absent) > 0:
-				variation = "add-key"
-				s := absent[r.Intn(len(absent))]
-				c.cur[s] = c20GenSection(r, s)
-				if c.cur[s].state == 0 {
-					c.cur[s] = c20SecRaw{state: 2, text: "{}"}
-				}
-			case x < 15 && len(present) > 0:
-				s := present[r.Intn(len(present))]
-				cp := c20xCopySec(c.cur[s])
-				if tag := c20xMutate(r, s, &cp); tag != "" {
-					cp.text = c20xRender(s, cp)
-					c.cur[s] = cp
-					variation = "edit:" + tag
-				} else {
-					c.cur[s] = c20GenSection(r, s)
-					variation = "regen"
-				}
-			case x < 16 && len(present) > 0:
-				variation = "break"
-				s := present[r.Intn(len(present))]
-				c.cur[s] = c20SecRaw{state: 1, text: []string{"invalid_content", "{", "[]", ""}[r.Intn(4)]}
-				if r.Bool() { // not one JSON value, but a PREFIX of the text is a complete (and different) section
-					variation = "break-valid-prefix"
-					for try := 0; try < 8; try++ {
-						if g := c20GenSection(r, s); g.state == 2 {
-							c.cur[s] = c20SecRaw{state: 1, text: c20PrefixValidMalformed(r, g.text)}
-							break
-						}
-					}
-				}
-			default:
-				variation = "regen"
-				for i, s := range r.Perm(5) {
-					if i == 0 || r.Chance(1, 5) {
-						c.cur[s] = c20GenSection(r, s)
-					}
-				}
-			}
-			if r.Chance(1, 10) {
-				c.dataNil = !c.dataNil
-			}
-			c.stepCMWrite(variation)
+			c20xRandomCMStep(c, r)
 		case "cmdel":
 			c.stepCMDelete()
 		case "foreign":
@@ -1308,25 +1473,7 @@ func c20xRandomHistory(c *c20xCase, r *vRand, race bool) {
 			}
 			c.stepNodeAdd(nm, c20xGenLabels(r))
 		case "relabel", "touch":
-			nm := names[r.Intn(len(names))]
-			oldLabels := c.nodes[nm]
-			labels := oldLabels
-			if kind == "relabel" {
-				labels = c20xGenLabels(r)
-				if r.Chance(1, 3) { // flip exactly one label: moves between selector layers
-					labels = map[int]int{}
-					for k, v := range oldLabels {
-						labels[k] = v
-					}
-					k := r.Range(1, 3)
-					if _, ok := labels[k]; ok && r.Bool() {
-						delete(labels, k)
-					} else {
-						labels[k] = 1 + (labels[k] % 2)
-					}
-				}
-			}
-			c.stepNodeUpdate(nm, labels, kind == "touch")
+			c20xRandomRelabel(c, r, kind, names)
 		case "nodedel":
 			c.stepNodeDelete(names[r.Intn(len(names))])
 		case "restart":
@@ -1341,8 +1488,8 @@ func c20xRandomHistory(c *c20xCase, r *vRand, race bool) {
 // ---------------------------------------------------------------- exhaustive small scope (thorough tier)
 
 // Every history of <= 4 steps over a 10-letter alphabet, for each of three sections whose built-in default leaves
-// fields unset (qos, system, host applications): ConfigMap texts T1 (cluster sets a field), T2 (cluster + an entry for la=x
-// that sets another field), T3 (unparsable), T0 (the key removed), ConfigMap deletion, one node added with la=x / relabelled
+// fields unset (qos, system, host applications): ConfigMap texts T1 (cluster sets a field), T2 (cluster + an entry named "b" for la=x
+// that sets another field + a SECOND entry named "a" with the same selector and other values: first in the document wins), T3 (unparsable), T0 (the key removed), ConfigMap deletion, one node added with la=x / relabelled
 // x<->y / deleted, restart.  Set -> unset transitions of every kind occur in all orders.
 func TestVerifC20HistExhaustive(t *testing.T) {
 	h := vOpen("C20")
@@ -1377,17 +1524,20 @@ func TestVerifC20HistExhaustive(t *testing.T) {
 		case 1:
 			raw.cluster = c20J{"lsClass": c20J{"cpuQOS": c20J{"groupIdentity": int64(2)}}}
 			if k == 2 {
-				raw.nodes = []c20NodeRaw{{sel: selX, strat: c20J{"beClass": c20J{"memoryQOS": c20J{"wmarkRatio": int64(50)}}}}}
+				raw.nodes = []c20NodeRaw{{sel: selX, name: "b", named: true, strat: c20J{"beClass": c20J{"memoryQOS": c20J{"wmarkRatio": int64(50)}}}},
+					{sel: selX, name: "a", named: true, strat: c20J{"beClass": c20J{"memoryQOS": c20J{"wmarkRatio": int64(65)}}, "lsClass": c20J{"cpuQOS": c20J{"groupIdentity": int64(1)}}}}}
 			}
 		case 3:
 			raw.cluster = c20J{"schedIdleSaverWmark": int64(3)}
 			if k == 2 {
-				raw.nodes = []c20NodeRaw{{sel: selX, strat: c20J{"schedGroupIdentityEnabled": int64(1), "totalNetworkBandwidth": "1G"}}}
+				raw.nodes = []c20NodeRaw{{sel: selX, name: "b", named: true, strat: c20J{"schedGroupIdentityEnabled": int64(1), "totalNetworkBandwidth": "1G"}},
+					{sel: selX, name: "a", named: true, strat: c20J{"schedGroupIdentityEnabled": int64(0), "minFreeKbytesFactor": int64(65), "schedIdleSaverWmark": int64(2)}}}
 			}
 		default:
 			raw.apps = app("nginx")
 			if k == 2 {
-				raw.nodes = []c20NodeRaw{{sel: selX, apps: append(app("redis"), app("agent")...)}}
+				raw.nodes = []c20NodeRaw{{sel: selX, name: "b", named: true, apps: append(app("redis"), app("agent")...)},
+					{sel: selX, name: "a", named: true, apps: app("agent")}}
 			}
 		}
 		raw.text = c20xRender(sec, raw)
@@ -1480,7 +1630,7 @@ func TestVerifC20HistExhaustive(t *testing.T) {
 			}
 		}
 	}
-	h.Close("EXHAUSTIVE: every history of 1-4 steps over {write text T0 (key removed) / T1 (cluster field) / T2 (cluster + la=x entry) / T3 (unparsable) / T4 (a complete section + trailing junk: not one JSON value), delete ConfigMap, " +
+	h.Close("EXHAUSTIVE: every history of 1-4 steps over {write text T0 (key removed) / T1 (cluster field) / T2 (cluster + la=x entry named b + a second la=x entry named a that must never be selected) / T3 (unparsable) / T4 (a complete section + trailing junk: not one JSON value), delete ConfigMap, " +
 		"node la=x, node la=y, node delete (or second node), restart cm-first / nodes-first} for each of the sections qos, system, host; " +
 		"plus every lazy-init race {no ConfigMap / T0..T4} -> {T0, T1, T2} with one node la=x / la=y (108 cases); non-trivial = a delivered field goes from set to unset")
 }
